@@ -55,7 +55,8 @@ fn module_of(c: &Case) -> String {
     s.align = Some(8);
     let mut e = EnumS::new("E", "u32");
     e.public = c.public;
-    e.copyable = true;
+    // with and without Copy: the accessor returns the enum by value either way
+    e.copyable = c.public;
     e.variants = vec![
         VariantS { name: "A".into(), value: None, default: false, doc: vec![] },
         VariantS { name: "B".into(), value: Some(7), default: false, doc: vec![] },
